@@ -167,7 +167,8 @@ def repo_tests_part(pid, V, pkg, run_re, work, stats, label):
     (the replay holds the event, the specification's state there and the life's
     events before it)."""
     t0 = time.time()
-    evs, rc, tail = record(pkg, run_re, os.path.join(work, "rec-" + label))
+    # (a test run that hangs is cut off: whatever it recorded until then is a prefix)
+    evs, rc, tail = record(pkg, run_re, os.path.join(work, "rec-" + label), timeout=420 if common.tier() == "quick" else 1200)
     stats["repo_test_exit_" + label] = rc
     stats["repo_test_events_" + label] = len(evs)
     if not evs:
